@@ -16,12 +16,17 @@ Streams
                     does) at any position of a composite, also inside concurrent streams
   clients           2..4 clients in one loop (joint run) + every client alone (solo run): non-interference
 
+Sub-requests of a composite carry an optional `name` that need not be unique: names are drawn from a small pool with repeats
+and omissions; the dependent_timing list (taken exactly as AsyncExecutor hands it to the Sampler) must be, as a multiset, one
+record per executed sub-request; its order is compared with the Lean model of run_stream's collection (`collect`).
+
 History: the oracle classes concurrent-children-exit-order / empty-child-context fired on the tree before fix 65587fe
 (first start / last end won on propagation from nested contexts); corpus/C18 holds the regression cases.
 """
 import asyncio
 import copy
 import heapq
+import json
 import os
 import time as _real_time
 import types
@@ -792,11 +797,27 @@ DUR = [None, 0.25, 0.25, 0.5, 0.5, 1.0, 1.0, 2.0, 3.0]   # None = no await at al
 PRE = [None, None, 0.25, 0.5, 1.0, 2.0]
 
 
-def gen_op(rng, names, p_fail=0.0):
-    name = f"op{len(names)}"
-    names.append(name)
+NAME_POOL = ["search", "query", "agg"]
+
+
+def pick_name(rng, uid, name_mode):
+    """the optional `name` of a sub-request: unique / drawn from a small pool (repeats within a stream, across sibling
+    streams and across nesting levels) / omitted"""
+    if name_mode == "unique":
+        return uid
+    r = rng.random()
+    if r < 0.25:
+        return None
+    return rng.choice(NAME_POOL[: 1 if name_mode == "same" else 3])
+
+
+def gen_op(rng, names, p_fail=0.0, name_mode="unique"):
+    uid = f"op{len(names)}"
+    names.append(uid)
+    name = pick_name(rng, uid, name_mode)
+    named = {} if name is None else {"name": name}
     if rng.random() < 0.2:
-        return {"operation-type": "sleep", "name": name, "duration": rng.choice([0.25, 0.5, 1.0, 2.0])}
+        return dict({"operation-type": "sleep", "duration": rng.choice([0.25, 0.5, 1.0, 2.0])}, **named)
     wires = []
     for _ in range(rng.choice([1, 1, 1, 2, 3])):
         chunks = [rng.choice(DUR) for _ in range(rng.choice([1, 1, 1, 2, 3]))]
@@ -808,29 +829,29 @@ def gen_op(rng, names, p_fail=0.0):
             wires[-1][1] = [] if kind == "timeout" or rng.random() < 0.5 else chunks[:1]
             wires[-1].append({"kind": kind, "after": rng.choice([None, 0.25, 0.5, 1.0, 2.0])})
             break
-    return {"operation-type": "raw-request", "name": name, "path": "/" + name, "body": {"wires": wires}}
+    return dict({"operation-type": "raw-request", "path": "/" + uid, "body": {"wires": wires}}, **named)
 
 
-def gen_stream(rng, depth, names, p_stream, p_fail=0.0):
+def gen_stream(rng, depth, names, p_stream, p_fail=0.0, name_mode="unique"):
     items = []
     for _ in range(rng.choice([1, 2, 2, 3])):
         if depth < 3 and rng.random() < p_stream:
-            items.append({"stream": gen_stream(rng, depth + 1, names, p_stream * 0.7, p_fail)})
+            items.append({"stream": gen_stream(rng, depth + 1, names, p_stream * 0.7, p_fail, name_mode)})
         else:
-            items.append(gen_op(rng, names, p_fail))
+            items.append(gen_op(rng, names, p_fail, name_mode))
     return items
 
 
-def gen_request(rng, names, p_composite=0.8, p_fail=0.0):
+def gen_request(rng, names, p_composite=0.8, p_fail=0.0, name_mode="unique"):
     r = rng.random()
     if r < p_composite:
         p_stream = rng.choice([0.0, 0.5, 0.7])
-        params = {"name": f"req{len(names)}", "requests": gen_stream(rng, 0, names, p_stream, p_fail)}
+        params = {"name": f"req{len(names)}", "requests": gen_stream(rng, 0, names, p_stream, p_fail, name_mode)}
         if rng.random() < 0.3:
             params["max-connections"] = rng.choice([1, 2])
         names.append(params["name"])
         return {"type": "composite", "params": params}
-    op = gen_op(rng, names, p_fail)
+    op = gen_op(rng, names, p_fail, name_mode)
     return {"type": op.pop("operation-type"), "params": op}
 
 
@@ -839,12 +860,14 @@ def gen_client(rng, cid, nreq):
     reqs = []
     sched = 0.0
     throttled = rng.random() < 0.3
+    # `name` is optional and need not be unique: the same search in several streams, unnamed sub-requests, ...
+    name_mode = rng.choice(["unique", "pool", "pool", "same"])
     # 40% of the clients see failing wire requests (on-error=continue): at any position of a composite, in any stream
     p_fail = rng.choice([0.15, 0.3]) if rng.random() < 0.4 else 0.0
     for _ in range(nreq):
         if throttled:
             sched += rng.choice([0.5, 1.0, 4.0])
-        reqs.append(dict(gen_request(rng, names, p_fail=p_fail), at=sched if throttled else 0))
+        reqs.append(dict(gen_request(rng, names, p_fail=p_fail, name_mode=name_mode), at=sched if throttled else 0))
     return {"id": cid, "ramp": rng.choice([None, None, 0.25, 0.5, 1.0, 1.5]), "requests": reqs}
 
 
@@ -866,7 +889,17 @@ def exec_clients(clients):
     mods = _mods()
     driver, runner, metrics = mods["driver"], mods["runner"], __import__("esrally.metrics", fromlist=["x"])
     rec = Recorder()
-    sampler = driver.Sampler(start_timestamp=0)
+    raw_deps = []
+
+    class RecSampler(driver.Sampler):
+        """the real Sampler; additionally keeps the `dependent_timing` argument exactly as AsyncExecutor hands it over"""
+
+        def add(self, *a, **kw):
+            dep = kw["dependent_timing"] if "dependent_timing" in kw else (a[14] if len(a) > 14 else None)
+            raw_deps.append(copy.deepcopy(dep))
+            return super().add(*a, **kw)
+
+    sampler = RecSampler(start_timestamp=0)
     ess = {}
 
     class Sched:
@@ -925,11 +958,18 @@ def exec_clients(clients):
     except Exception as ex:
         return rec, {"exception": f"{type(ex).__name__}: {ex}"[:300]}
     samples = []
-    for s in sampler.samples:
+    for s, raw in zip(sampler.samples, raw_deps):
+        rawl = None
+        if raw is not None:
+            rawl = []
+            for t in raw:
+                dt = (t or {}).get("dependent_timing") if isinstance(t, dict) else None
+                rawl.append(None if dt is None else {"operation": dt.get("operation"), "type": dt.get("operation-type"), "start": q(dt.get("request_start")),
+                                                     "end": q(dt.get("request_end")), "svc": q(dt.get("service_time"))})
         deps = [{"op": d.operation_name, "type": d.operation_type, "start": q(d.request_start), "svc": q(d.service_time)} for d in s.dependent_timings]
         samples.append({"client": s.client_id, "start": q(s.request_start), "svc": q(s.service_time), "latency": q(s.latency),
                         "period": q(s.time_period), "deps": deps, "success": bool(s.request_meta_data.get("success")),
-                        "error-type": s.request_meta_data.get("error-type"), "ops": s.total_ops})
+                        "error-type": s.request_meta_data.get("error-type"), "ops": s.total_ops, "raw_deps": rawl})
     return rec, samples
 
 
@@ -975,6 +1015,74 @@ def check_against_model(ctx, what, rec, samples, clients):
     return m
 
 
+class StructureMismatch(Exception):
+    pass
+
+
+def flat_ops(items):
+    """the sub-requests of a composite in specification order (= ids 0, 1, ... of the model's `Items`)"""
+    out = []
+    for it in items:
+        if "stream" in it:
+            out += flat_ops(it["stream"])
+        else:
+            out.append(it)
+    return out
+
+
+def items_json(items, counter=None):
+    counter = counter if counter is not None else [0]
+    out = []
+    for it in items:
+        if "stream" in it:
+            out.append({"stream": items_json(it["stream"], counter)})
+        else:
+            out.append({"op": counter[0]})
+            counter[0] += 1
+    return out
+
+
+def map_ops(rec, client_task, top, items):
+    """which request context belongs to which sub-request: a stream's items are executed in order by one task; a sub-request
+    opens one context (RequestTiming), a nested stream creates one task.  Uses only what was observed (task creation,
+    context entry), never names or paths."""
+    acts = {}
+    cur_top = None
+    for e in rec.events:
+        if e["k"] == "open":
+            if e["task"] == client_task and rec.parent[e["ctx"]] is None:
+                cur_top = e["ctx"]
+                continue
+            key = ("top", cur_top) if e["task"] == client_task else e["task"]
+            acts.setdefault(key, []).append(("open", e["ctx"]))
+        elif e["k"] == "spawn":
+            key = ("top", cur_top) if e["task"] == client_task else e["task"]
+            acts.setdefault(key, []).append(("spawn", e["child"]))
+
+    def walk(its, key):
+        out = []
+        al = list(acts.get(key, []))
+        pos = 0
+        for it in its:
+            if pos >= len(al):
+                raise StructureMismatch(f"{key}: {len(al)} actions for {len(its)} items")
+            kind, x = al[pos]
+            pos += 1
+            if "stream" in it:
+                if kind != "spawn":
+                    raise StructureMismatch(f"{key}: expected a task for a stream, saw a context")
+                out += walk(it["stream"], x)
+            else:
+                if kind != "open":
+                    raise StructureMismatch(f"{key}: expected a context for a sub-request, saw a task")
+                out.append(x)
+        if pos != len(al):
+            raise StructureMismatch(f"{key}: {len(al)} actions for {len(its)} items")
+        return out
+
+    return walk(items, ("top", top))
+
+
 def sample_oracle(ctx, what, rec, samples, clients):
     """endpoint log vs samples: request_start = earliest wire start, service_time = latest end - earliest start of ALL
     wire requests issued on behalf of the logical request until it was recorded - failed ones included; a request with
@@ -1014,23 +1122,32 @@ def sample_oracle(ctx, what, rec, samples, clients):
             if failed:
                 ctx.count("requests-with-a-failed-wire-request")
                 continue
-            # sub-requests
-            exp_named = {}
-            anon = {}
-            for w in ws:
-                if w["op"] is not None:
-                    exp_named.setdefault(w["op"][1:], []).append(w)
-                else:
-                    anon.setdefault((w["task"], w["cur"]), []).append(w)
+            # sub-requests: the dependent_timing list has exactly one entry per executed sub-request, each covering exactly
+            # that sub-request's own wire requests (names may repeat or be absent: entries are matched structurally)
             if r["type"] == "composite":
-                exp_list = [[name] + list(span(lst).values()) for name, lst in exp_named.items()]
-                got_named = [[d["op"], d["start"], d["svc"]] for d in s["deps"] if d["type"] == "raw-request"]
-                if sorted(exp_list, key=str) != sorted(got_named, key=str):
-                    ctx.fail(CLS_SUB, f"{what}: dependent timings of raw-request sub-requests differ from the endpoint's log (sample {i}, client {cl['id']})", sorted(exp_list, key=str), sorted(got_named, key=str))
-                exp_anon = sorted((list(span(lst).values()) for lst in anon.values()), key=str)
-                got_anon = sorted(([d["start"], d["svc"]] for d in s["deps"] if d["type"] == "sleep"), key=str)
-                if exp_anon != got_anon:
-                    ctx.fail(CLS_SUB, f"{what}: dependent timings of sleep sub-requests differ from the endpoint's log (sample {i}, client {cl['id']})", exp_anon, got_anon)
+                ops = flat_ops(r["params"]["requests"])
+                try:
+                    octx = map_ops(rec, t, c, r["params"]["requests"])
+                except StructureMismatch as ex:
+                    ctx.diff(f"{what}: tasks / contexts of sample {i} of client {cl['id']} do not follow the stream structure", str(ex), None)
+                    continue
+                exp_list = []
+                for op, d in zip(ops, octx):
+                    sp = span([w for w in ws if w["cur"] == d])
+                    st = min((w["t"] for w in ws if w["cur"] == d and w["start"]), default=None)
+                    en = max((w["t"] for w in ws if w["cur"] == d and not w["start"]), default=None)
+                    exp_list.append({"operation": op.get("name"), "type": op["operation-type"], "start": q(st), "end": q(en), "svc": sp["svc"]})
+                got_list = s["raw_deps"] if s["raw_deps"] is not None else []
+                key = lambda e: json.dumps(e, sort_keys=True)
+                if sorted(map(key, exp_list)) != sorted(map(key, got_list)):
+                    ctx.fail(CLS_SUB, f"{what}: dependent_timing of sample {i} of client {cl['id']} is not exactly one record per executed sub-request, each covering "
+                             f"that sub-request's own wire requests ({len(exp_list)} sub-requests, {len(got_list)} records)", exp_list, got_list)
+                else:
+                    # the order of the list is the one of the model of run_stream (`collect`)
+                    mo = ctx.model("ctx", "collect", {"items": items_json(r["params"]["requests"])})["r"]["order"]
+                    if [exp_list[k] for k in mo] != got_list:
+                        ctx.diff(f"{what}: order of the dependent_timing list (sample {i}, client {cl['id']})", [exp_list[k] for k in mo], got_list)
+                ctx.count("sub-request names:" + ("repeated" if len({o.get("name") for o in ops}) < len(ops) else "unique"))
     return cls_seen
 
 
